@@ -22,9 +22,9 @@ META = {
         "a partition of request shapes, accepts exactly: version marker present, non-empty string method, params "
         "absent or list/dict/tuple; C05.8 (shared with C06.1 / C06.2 / C06.4) the client surfaces every error reply as a ProtocolError "
         "carrying the code: check_for_errors raises ProtocolError((code, message)) for an error object, every consumer of a reply "
-        "checks it first, and _run_request returns None only for an empty reply body (an error answered to a notification is parsed too)."),
+        "checks it first, and _run_request returns None only for an empty reply body (an error answered to a notification is parsed too).; C05.9 (shared) the error envelope carries the error object in both protocol versions (imported C14.1), and a request with an id - 0 and 0.0 included - is not treated as a notification, so its failure is answered (imported C04.3)"),
     "does_not_decide": "which texts the JSON backend rejects; exact message texts.",
-    "rules": {
+    "rules": {"C05.9": "imported C14.1, C04.3", 
         "C05.1": "site classification by handler / dominating branch; literal folding vs spec table A.1",
         "C05.2": "CFG reachability and dominance", "C05.3": "who-may-call on getattr with provenance of the receiver",
         "C05.4": "provenance terms of the message argument", "C05.5": "lexical enclosure of the call by the -32602 try",
@@ -432,7 +432,10 @@ def check(ck):
               ("None", shape.K(None), False), ("5", shape.K(5), False), ("'x'", shape.K("x"), False),
               ("0.0", shape.K(0.0), False)]
     markers = [("jsonrpc+id", {"jsonrpc": shape.K("2.0"), "id": shape.K(1)}, True),
-               ("jsonrpc", {"jsonrpc": shape.K("2.0")}, True), ("id", {"id": shape.K(1)}, True), ("none", {}, False)]
+               ("jsonrpc", {"jsonrpc": shape.K("2.0")}, True), ("id", {"id": shape.K(1)}, True), ("none", {}, False),
+               # a 1.0 message is recognised by the presence of "id", whatever its value (null for a 1.0 notification)
+               ("id null", {"id": shape.K(None)}, True), ("id ''", {"id": shape.K("")}, True), ("id 0", {"id": shape.K(0)}, True),
+               ("jsonrpc+id null", {"jsonrpc": shape.K("2.0"), "id": shape.K(None)}, True)]
     cases = 0
     for (ml, mv) in methods:
         for (pl, pv, p_ok) in params:
@@ -478,3 +481,9 @@ def check(ck):
     from rules import c06
     _common.import_rules(ck, c06, {"C06.1": "C05.8", "C06.2": "C05.8", "C06.4": "C05.8"})
     ck.floor("C05.8", 10)
+
+    # ---- C05.9 shared clauses ------------------------------------------------------------------------------------------
+    from rules import c14 as _c14, c04 as _c04
+    _common.import_rules(ck, _c14, {"C14.1": "C05.9"})
+    _common.import_rules(ck, _c04, {"C04.3": "C05.9"})
+    ck.floor("C05.9", 20)
